@@ -19,6 +19,7 @@ RULE = (
     "permutation and multi-file input, npz, save_data/save_dataz/load_data, cached_data); lazy vs eager preprocessor output.  "
     "non-trivial = structure with >= 3 leaves or an empty container, n not divisible by the batch; distinct = structure+n+batch."
 )
+RULE += '  Also: lazily evaluated samples through the loader (five lazy variants incl. memory / disk cache, several groups, merged data+bg, repeated and interleaved batch sizes, bare LazyFile); momenta written with the charge column beside them.'
 ASSUMPTIONS = [
     "lossless = same keys, same container types (dict key order is not content), same dtype and values (exact)",
     "text files: numpy '%.18e' round trip, compared exactly after the same text round trip of the reference (1e-15 relative)",
